@@ -110,12 +110,33 @@ CHECKS = {
 
 PENDING_REASON = "check for this property is being built in this session (see DESIGN.md section 2 for the planned rules); not claimed until its rules run clean on the unchanged tree"
 
+def rules_by_property():
+    """Rules as registered in the checker (`vuegocheck -list`): property -> [(id, first sentence of the rule's statement)]."""
+    import subprocess, re
+    out = subprocess.run([os.path.join(HERE, "bin", "vuegocheck"), "-list"], stdout=subprocess.PIPE, text=True).stdout
+    by = {}
+    for line in out.splitlines():
+        m = re.match(r"^(C\d+\.R\d+)\s+(\S+)\s+min=\d+\s+(.*)$", line)
+        if not m:
+            continue
+        rid, props, doc = m.group(1), m.group(2).split(","), m.group(3)
+        first = doc.split(": ")[0] if len(doc.split(": ")[0]) > 25 else doc
+        first = first[:170]
+        for p in props:
+            by.setdefault(p, []).append((rid, first))
+    return by
+
 def main():
     props = [json.loads(l)["id"] for l in open(os.path.join(HERE, "properties.jsonl")) if l.strip()]
     checks, na = [], []
+    rules = rules_by_property()
     for pid in props:
         if pid in CHECKS:
             tech, text, note = CHECKS[pid]
+            tech += "; on a changed tree, functions that are new since the pinned tree are inlined into their callers in SSA form (with jump threading) before any rule runs"
+            rl = rules.get(pid, [])
+            if rl:
+                text += " | All rules registered for this property (" + str(len(rl)) + ", from `vuegocheck -list`; full statements there and in DESIGN.md 6.2): " + "; ".join(f"{rid} — {d}" for rid, d in sorted(rl, key=lambda x: (int(x[0][1:3]), int(x[0].split('R')[1]))))
             checks.append({
                 "property_id": pid,
                 "quick_cmd": f"./check.sh {pid} quick",
